@@ -6,7 +6,7 @@ from . import params_common as pc
 
 def run(ctx):
     thorough = ctx.tier == "thorough"
-    runs = [([[1, 2, 3]], [3], "combine/1param")]
+    runs = [([[1, 2, 3, 4]], [2 if not thorough else 3], "combine/1param")]
     runs.append(([[1, 2, 3], [1, 2]], [2, 2], "combine/2params"))
     if thorough:
         runs.append(([[1, 2, 3, 4], [1, 2, 3]], [3, 2], "combine/2params-large"))
